@@ -1,10 +1,14 @@
 /-
 C04 — l10n-merge output is complete, clean and otherwise untouched.
 Theorems about the model `Merge.merge` of `ContentComparer.merge`, for ALL texts, skip lists
-and missing lists.  The re-parse claims of the property are decided on the real code (oracle);
-they are false in general (findings F4, F5, F14) — the witnesses below are kernel-checked.
+and missing lists.  The re-parse claims of the property are false in general (findings F4, F5, F14 —
+the witnesses below are kernel-checked); section `Reparse` at the end proves them for printed
+`.properties`/`.ini` texts under the decidable hypothesis `SpliceStable`, everything else is decided
+on the real code (oracle).
 -/
 import CLModel.Compare.Merge
+import CLModel.Proofs.C04Splice
+import CLModel.Proofs.C04Ini
 namespace C04
 open Merge Gen.Tables
 
@@ -139,5 +143,263 @@ example : SortedDisjoint [{ span := some (2, 4), junk := true, refAll := [] }, {
 example : merge true CAN_SKIP [0, 1, 2, 3, 4, 5, 6]
     [{ span := some (5, 6), junk := false, refAll := [] }, { span := some (2, 4), junk := true, refAll := [] }] []
       = .written [0, 1, 4, 6] := by decide
+
+/-! ### the re-parse claim for `.properties`, under explicit stability hypotheses
+
+FULL STATEMENT (DESIGN.md "### C04"): for a clean reference and a localization without duplicate keys,
+`reparse (merge …) = expected entities ∧ no junk ∧ nothing missing`, under `SpliceStable`.
+Proved here for the printed class of C02 (`printProps`: safe records `key=value⏎`, see `C02.roundtrip_properties_partial`),
+for which `SpliceStable` holds (`printed_splices_stable`); the findings F4 and F14 are kernel-checked inputs on which
+`SpliceStable` is false AND the re-parse claim fails (`f4_unstable_witness`, `f14_unstable_witness`).
+NOT proved: arbitrary localized texts satisfying `SpliceStable` (comments, escapes, continuation lines, other layouts),
+more than one cut, dtd; those stay with the end-to-end oracle. -/
+section Reparse
+open P C04R
+
+/-- (clean append) The localization is a printed list of safe records — with or without the newline after its last
+    record —, nothing is cut, the missing reference entries `ms` are safe records `key=value⏎`: the staged text is the copy
+    of the l10n file followed by a newline and the reference entries, and it parses to exactly the localized records followed
+    by the reference records — nothing missing, localized keys and values untouched, no unparsed content.
+    (The parser does not need the keys of `ms` to differ from those of `rs`; the comparison does.) -/
+theorem append_reparses_properties_partial (rs ms : List PRec) (finalNl : Bool)
+    (hrs : ∀ r ∈ rs, SafeRec r) (hms : ∀ r ∈ ms, SafeRec r) (hne : ms ≠ []) :
+    ∃ t es, staged (l10nText rs finalNl) (merge true cap_properties (l10nText rs finalNl) [] (ms.map printRec)) = some t ∧
+      t = l10nText rs finalNl ++ 10 :: printProps ms ∧
+      walk .properties t.toArray = .done es ∧
+      entitiesOf .properties t.toArray es = (rs ++ ms).map expectedView ∧
+      junkOf t.toArray es = [] := by
+  obtain ⟨m, ms', rfl⟩ : ∃ m ms', ms = m :: ms' := by
+    cases ms with
+    | nil => exact absurd rfl hne
+    | cons m ms' => exact ⟨m, ms', rfl⟩
+  have hst : staged (l10nText rs finalNl) (merge true cap_properties (l10nText rs finalNl) [] ((m :: ms').map printRec)) =
+      some (l10nText rs finalNl ++ 10 :: printProps (m :: ms')) := by
+    rw [List.map_cons, merge_append, ← List.map_cons, trailing_printed]
+  obtain ⟨toks, ht, hr⟩ := l10nText_append_toks rs (m :: ms') finalNl
+  obtain ⟨es, h1, h2, h3⟩ := reparse_toks _ toks (rs ++ m :: ms') ht hr
+    (fun r hr => by rcases List.mem_append.mp hr with h | h; exact hrs r h; exact hms r h)
+  exact ⟨_, es, hst, rfl, h1, h2, h3⟩
+
+/-- (cut of a whole-line junk) The localization is `records, garbage line G⏎, records`.  (1) Garbage locality: its walk
+    has exactly ONE junk entry `j`, spanning exactly the garbage line with its newline, and the entities are exactly
+    the records.  (2) With `j`'s span as the only skip (and any safe missing entries `ms`), the staged text is the printed
+    records without the garbage line, a newline, the reference entries; it parses to the records followed by the
+    reference records, with no unparsed content. -/
+theorem cut_reparses_properties_partial (rs1 rs2 ms : List PRec) (G : List Nat)
+    (h1 : ∀ r ∈ rs1, SafeRec r) (h2 : ∀ r ∈ rs2, SafeRec r) (hms : ∀ r ∈ ms, SafeRec r) (hG : GarbageLine G) :
+    ∃ es j, walk .properties (withGarbage rs1 G rs2).toArray = .done es ∧
+      es.filter (fun e => e.kind == .junk) = [j] ∧
+      j.s = (printProps rs1).length ∧ j.e = (printProps rs1).length + G.length + 1 ∧
+      entitiesOf .properties (withGarbage rs1 G rs2).toArray es = (rs1 ++ rs2).map expectedView ∧
+      junkOf (withGarbage rs1 G rs2).toArray es = [G ++ [10]] ∧
+      ∃ t es', staged (withGarbage rs1 G rs2) (merge true cap_properties (withGarbage rs1 G rs2)
+            [{ span := some (j.s, j.e), junk := true, refAll := [] }] (ms.map printRec)) = some t ∧
+        t = printProps (rs1 ++ rs2) ++ 10 :: printProps ms ∧
+        walk .properties t.toArray = .done es' ∧
+        entitiesOf .properties t.toArray es' = (rs1 ++ rs2 ++ ms).map expectedView ∧
+        junkOf t.toArray es' = [] := by
+  obtain ⟨es1, es2, hw, hen1, hj1, hen2, hj2⟩ := walk_garbage rs1 rs2 G h1 h2 hG
+  have hf1 : es1.filter (fun e => e.kind == .junk) = [] := by simpa [junkOf] using hj1
+  have hf2 : es2.filter (fun e => e.kind == .junk) = [] := by simpa [junkOf] using hj2
+  have hda : (withGarbage rs1 G rs2).toArray.toList.drop (printProps rs1).length = (G ++ [10]) ++ printProps rs2 := by
+    simp [withGarbage]
+  have hsl : slice (withGarbage rs1 G rs2).toArray (printProps rs1).length ((printProps rs1).length + G.length + 1) = G ++ [10] := by
+    have := slice_take (withGarbage rs1 G rs2).toArray (printProps rs1).length (G.length + 1) _ hda (by simp)
+    rw [show (printProps rs1).length + (G.length + 1) = (printProps rs1).length + G.length + 1 by omega] at this
+    rw [this, List.take_left' (by simp)]
+  refine ⟨es1 ++ junkEntry (printProps rs1).length ((printProps rs1).length + G.length + 1) :: es2,
+    junkEntry (printProps rs1).length ((printProps rs1).length + G.length + 1), hw, ?_, rfl, rfl, ?_, ?_, ?_⟩
+  · rw [List.filter_append, hf1, List.filter_cons_of_pos (by simp [junkEntry]), hf2]
+    rfl
+  · simp only [entitiesOf] at hen1 hen2 ⊢
+    rw [List.filter_append, List.filter_cons_of_neg (by simp [junkEntry]), List.map_append, hen1, hen2, List.map_append]
+  · simp only [junkOf] at hj1 hj2 ⊢
+    rw [List.filter_append, hf1, List.filter_cons_of_pos (by simp [junkEntry]), hf2]
+    simp only [List.nil_append, List.map_cons, List.map_nil, junkEntry]
+    rw [hsl]
+  · have hst : staged (withGarbage rs1 G rs2) (merge true cap_properties (withGarbage rs1 G rs2)
+          [{ span := some ((junkEntry (printProps rs1).length ((printProps rs1).length + G.length + 1)).s,
+                           (junkEntry (printProps rs1).length ((printProps rs1).length + G.length + 1)).e),
+             junk := true, refAll := [] }] (ms.map printRec)) =
+        some (printProps (rs1 ++ rs2) ++ 10 :: printProps ms) := by
+      rw [merge_one_skip, trailing_printed_junk]
+      have e : withGarbage rs1 G rs2 = printProps rs1 ++ ((G ++ [10]) ++ printProps rs2) := by simp [withGarbage]
+      rw [e, chunks_one _ _ _ _ (by simp [junkEntry]; omega), printProps_append]
+    obtain ⟨ht, hr⟩ := toks_two (rs1 ++ rs2) ms
+    obtain ⟨es', a1, a2, a3⟩ := reparse_toks _ _ (rs1 ++ rs2 ++ ms) ht hr
+      (fun r hr => by
+        rcases List.mem_append.mp hr with h | h
+        · rcases List.mem_append.mp h with h | h
+          · exact h1 r h
+          · exact h2 r h
+        · exact hms r h)
+    exact ⟨_, es', hst, rfl, a1, a2, a3⟩
+
+/-- (cut of an entity with a check error) The localization is a printed list of safe records; the entity of the record
+    `rb` is skipped — its span is the one the walk reports, `key=value` without the newline — and replaced by the reference
+    entry `rref` (appended after the missing entries `ms`): the staged text keeps the other records (a blank line
+    remains where `rb` was), and parses to the kept records, the missing records and `rref`, with no unparsed content. -/
+theorem skip_entity_reparses_properties_partial (rs1 rs2 ms : List PRec) (rb rref : PRec)
+    (h1 : ∀ r ∈ rs1, SafeRec r) (hb : SafeRec rb) (h2 : ∀ r ∈ rs2, SafeRec r) (hms : ∀ r ∈ ms, SafeRec r)
+    (href : SafeRec rref) :
+    ∃ es e, walk .properties (printProps (rs1 ++ rb :: rs2)).toArray = .done es ∧ e ∈ es ∧
+      e = propsEntity_c02 (printProps rs1).length rb.1.length rb.2.length ∧
+      ∃ t es', staged (printProps (rs1 ++ rb :: rs2)) (merge true cap_properties (printProps (rs1 ++ rb :: rs2))
+            [{ span := some (e.s, e.e), junk := false, refAll := printRec rref }] (ms.map printRec)) = some t ∧
+        t = printProps rs1 ++ 10 :: (printProps rs2 ++ 10 :: printProps (ms ++ [rref])) ∧
+        walk .properties t.toArray = .done es' ∧
+        entitiesOf .properties t.toArray es' = (rs1 ++ rs2 ++ (ms ++ [rref])).map expectedView ∧
+        junkOf t.toArray es' = [] := by
+  have hall : ∀ r ∈ rs1 ++ rb :: rs2, SafeRec r := by
+    intro r hr
+    rcases List.mem_append.mp hr with h | h
+    · exact h1 r h
+    · rcases List.mem_cons.mp h with h | h
+      · exact h ▸ hb
+      · exact h2 r h
+  refine ⟨expEntries 0 (rs1 ++ rb :: rs2), _, walk_props_printed _ hall, ?_, rfl, ?_⟩
+  · simpa using mem_expEntries rs1 rb rs2 0
+  · have hst : staged (printProps (rs1 ++ rb :: rs2)) (merge true cap_properties (printProps (rs1 ++ rb :: rs2))
+          [{ span := some ((propsEntity_c02 (printProps rs1).length rb.1.length rb.2.length).s,
+                           (propsEntity_c02 (printProps rs1).length rb.1.length rb.2.length).e),
+             junk := false, refAll := printRec rref }] (ms.map printRec)) =
+        some (printProps rs1 ++ 10 :: (printProps rs2 ++ 10 :: printProps (ms ++ [rref]))) := by
+      rw [merge_one_skip, trailing_printed_entity]
+      have e : printProps (rs1 ++ rb :: rs2) = printProps rs1 ++ ((rb.1 ++ 61 :: rb.2) ++ 10 :: printProps rs2) := by
+        simp [printProps, printRec]
+      rw [e, chunks_one _ _ _ _ (by simp [propsEntity_c02]; omega)]
+      simp
+    obtain ⟨ht, hr⟩ := toks_three rs1 rs2 (ms ++ [rref])
+    obtain ⟨es', a1, a2, a3⟩ := reparse_toks _ _ (rs1 ++ rs2 ++ (ms ++ [rref])) ht hr
+      (fun r hr => by
+        rcases List.mem_append.mp hr with h | h
+        · rcases List.mem_append.mp h with h | h
+          · exact h1 r h
+          · exact h2 r h
+        · rcases List.mem_append.mp h with h | h
+          · exact hms r h
+          · simp at h; exact h ▸ href)
+    exact ⟨_, es', hst, rfl, a1, a2, a3⟩
+
+/-- the three splices above satisfy the decidable stability predicate `SpliceStable` (every cut starts at a line start
+    or keeps its line end; the kept text does not end in an odd run of backslashes when entries are appended) -/
+theorem printed_splices_stable (rs1 rs2 ms : List PRec) (rb : PRec) (G : List Nat) (finalNl : Bool)
+    (h1 : ∀ r ∈ rs1, SafeRec r) :
+    SpliceStable (l10nText rs1 finalNl) [] (ms.map printRec) = true ∧
+    SpliceStable (withGarbage rs1 G rs2)
+      [{ span := some ((printProps rs1).length, (printProps rs1).length + G.length + 1), junk := true, refAll := [] }]
+      (ms.map printRec) = true ∧
+    SpliceStable (printProps (rs1 ++ rb :: rs2))
+      [{ span := some ((propsEntity_c02 (printProps rs1).length rb.1.length rb.2.length).s,
+                       (propsEntity_c02 (printProps rs1).length rb.1.length rb.2.length).e),
+         junk := false, refAll := printRec rb }] (ms.map printRec) = true :=
+  ⟨append_stable rs1 ms finalNl h1, cut_stable rs1 rs2 G _ _ _, skip_entity_stable rs1 rs2 rb _ _ _⟩
+
+/-- F4 (known finding) is the negation of the backslash hypothesis: for the localization `a=X\` (no final newline) and the
+    missing reference entry `b=B⏎`, `SpliceStable` is false, the staged text is `a=X\⏎b=B⏎`, and its walk has ONE entity
+    (key span 0–1, value span 2–8): the appended entry is swallowed as a continuation line, `b` stays missing. -/
+theorem f4_unstable_witness :
+    SpliceStable [97, 61, 88, 92] [] [[98, 61, 66, 10]] = false ∧
+    staged [97, 61, 88, 92] (merge true cap_properties [97, 61, 88, 92] [] [[98, 61, 66, 10]])
+      = some [97, 61, 88, 92, 10, 98, 61, 66, 10] ∧
+    walk .properties #[97, 61, 88, 92, 10, 98, 61, 66, 10] =
+      .done [{ kind := .entity, full := 0, s := 0, e := 8, ks := 0, ke := 1, vs := 2, ve := 8 },
+             { kind := .whitespace, full := 8, s := 8, e := 9, ks := 8, ke := 9, vs := 8, ve := 9 }] := by
+  decide
+
+/-- … and with an EVEN run of backslashes (`a=X\\`) the predicate holds and the appended entry is parsed (entity at 6–9) -/
+theorem f4_even_run_witness :
+    SpliceStable [97, 61, 88, 92, 92] [] [[98, 61, 66, 10]] = true ∧
+    walk .properties #[97, 61, 88, 92, 92, 10, 98, 61, 66, 10] =
+      .done [{ kind := .entity, full := 0, s := 0, e := 5, ks := 0, ke := 1, vs := 2, ve := 5 },
+             { kind := .whitespace, full := 5, s := 5, e := 6, ks := 5, ke := 6, vs := 5, ve := 6 },
+             { kind := .entity, full := 6, s := 6, e := 9, ks := 6, ke := 7, vs := 8, ve := 9 },
+             { kind := .whitespace, full := 9, s := 9, e := 10, ks := 9, ke := 10, vs := 9, ve := 10 }] := by
+  decide
+
+/-- F14 (known finding) is the negation of the line-start hypothesis: in the ini text `[Strings]\⏎; c⏎k=v` the walk
+    reports the junk `\⏎` with span (9, 11) — it starts in the middle of a line and ends with the line end —, `SpliceStable`
+    is false for that cut, the staged text is `[Strings]; c⏎k=v⏎`, and its walk contains a NEW junk entry (9, 13): the
+    comment line was fused onto the section line. -/
+theorem f14_unstable_witness :
+    walk .ini #[91, 83, 116, 114, 105, 110, 103, 115, 93, 92, 10, 59, 32, 99, 10, 107, 61, 118] =
+      .done [{ kind := .section, full := 0, s := 0, e := 9, ks := 1, ke := 8, vs := 1, ve := 8 },
+             { kind := .junk, full := 9, s := 9, e := 11 },
+             { kind := .entity, full := 11, s := 15, e := 18, ks := 15, ke := 16, vs := 17, ve := 18, pc := some (11, 14) }] ∧
+    SpliceStable [91, 83, 116, 114, 105, 110, 103, 115, 93, 92, 10, 59, 32, 99, 10, 107, 61, 118]
+      [{ span := some (9, 11), junk := true, refAll := [] }] [] = false ∧
+    staged [91, 83, 116, 114, 105, 110, 103, 115, 93, 92, 10, 59, 32, 99, 10, 107, 61, 118]
+      (merge true cap_ini [91, 83, 116, 114, 105, 110, 103, 115, 93, 92, 10, 59, 32, 99, 10, 107, 61, 118]
+        [{ span := some (9, 11), junk := true, refAll := [] }] [])
+      = some [91, 83, 116, 114, 105, 110, 103, 115, 93, 59, 32, 99, 10, 107, 61, 118, 10] ∧
+    walk .ini #[91, 83, 116, 114, 105, 110, 103, 115, 93, 59, 32, 99, 10, 107, 61, 118, 10] =
+      .done [{ kind := .section, full := 0, s := 0, e := 9, ks := 1, ke := 8, vs := 1, ve := 8 },
+             { kind := .junk, full := 9, s := 9, e := 13 },
+             { kind := .entity, full := 13, s := 13, e := 16, ks := 13, ke := 14, vs := 15, ve := 16 },
+             { kind := .whitespace, full := 16, s := 16, e := 17, ks := 16, ke := 17, vs := 16, ve := 17 }] := by
+  decide
+
+-- non-vacuity: the hypotheses are satisfiable by non-trivial values ("a.b=x y", "k=" and the garbage line "no separator")
+example : SafeRec ([97, 46, 98], [120, 32, 121]) ∧ SafeRec ([107], []) := by
+  constructor <;> constructor <;> simp [propsKeyChar] <;> decide
+example : GarbageLine [110, 111, 32, 115, 101, 112, 97, 114, 97, 116, 111, 114] := by
+  constructor <;> simp <;> decide
+example : withGarbage [([97], [120])] [103] [([98], [])] = [97, 61, 120, 10, 103, 10, 98, 61, 10] := by decide
+example : l10nText [([97], [120])] false = [97, 61, 120] := by decide
+-- NEGATION WITNESSES for `GarbageLine` (what the code does at the excluded points):
+-- a `#` inside the line ends the junk there ("g#x⏎" -> junk 0..1, then a comment)
+example : (propsGetNext #[103, 35, 120, 10] 0).e = 1 := by decide
+-- a `=` makes the line an entity
+example : (propsGetNext #[103, 61, 120, 10] 0).kind = .entity := by decide
+
+/-- (ini analogue of the clean append) The localization is `[name]⏎` followed by a printed list of ini records
+    (`IniSafeRec`: the value may contain anything but a newline — also backslashes and blanks at either end), with or
+    without the newline after the last record; nothing is cut; the missing reference entries are such records: the
+    staged text parses to the section, exactly the localized records followed by the reference records, no unparsed
+    content.  No backslash hypothesis is needed for ini (a trailing backslash is not a line continuation there). -/
+theorem append_reparses_ini_partial (name : List Nat) (rs ms : List PRec) (finalNl : Bool)
+    (hn : ∀ c ∈ name, c ≠ 93 ∧ c ≠ 10)
+    (hrs : ∀ r ∈ rs, IniSafeRec r) (hms : ∀ r ∈ ms, IniSafeRec r) (hne : ms ≠ []) :
+    ∃ t es, staged (iniSection name ++ 10 :: l10nText rs finalNl)
+        (merge true cap_ini (iniSection name ++ 10 :: l10nText rs finalNl) [] (ms.map printRec)) = some t ∧
+      t = (iniSection name ++ 10 :: l10nText rs finalNl) ++ 10 :: printProps ms ∧
+      walk .ini t.toArray = .done es ∧
+      entitiesOf .ini t.toArray es = (rs ++ ms).map expectedView ∧
+      junkOf t.toArray es = [] := by
+  obtain ⟨m, ms', rfl⟩ : ∃ m ms', ms = m :: ms' := by
+    cases ms with
+    | nil => exact absurd rfl hne
+    | cons m ms' => exact ⟨m, ms', rfl⟩
+  have hcap : cap_ini = cap_properties := rfl
+  have hst : staged (iniSection name ++ 10 :: l10nText rs finalNl)
+      (merge true cap_ini (iniSection name ++ 10 :: l10nText rs finalNl) [] ((m :: ms').map printRec)) =
+      some ((iniSection name ++ 10 :: l10nText rs finalNl) ++ 10 :: printProps (m :: ms')) := by
+    rw [hcap, List.map_cons, merge_append, ← List.map_cons, trailing_printed]
+  obtain ⟨toks, ht, hr⟩ := l10nText_append_toks rs (m :: ms') finalNl
+  have ht' : (iniSection name ++ 10 :: l10nText rs finalNl) ++ 10 :: printProps (m :: ms') =
+      iniSection name ++ printToks (.nl :: toks) := by
+    simp only [printToks, ← ht]
+    simp
+  obtain ⟨es, a1, a2, a3⟩ := ini_walk_section_toks name (.nl :: toks) hn
+    (by
+      intro r hr'
+      have : r ∈ rs ++ m :: ms' := by rw [← hr]; simpa [recsOf] using hr'
+      rcases List.mem_append.mp this with h | h
+      · exact hrs r h
+      · exact hms r h)
+  refine ⟨_, es, hst, rfl, ?_, ?_, ?_⟩
+  · rw [ht']; exact a1
+  · rw [ht', a2]; simp [recsOf, hr]
+  · rw [ht']; exact a3
+
+-- non-vacuity (ini): "[Strings]" and the records "k = v \" (blanks, trailing backslash) and "a.b="
+example : IniSafeRec ([107, 32], [32, 118, 32, 92]) ∧ IniSafeRec ([97, 46, 98], []) := by
+  constructor <;> constructor <;> simp
+example : iniSection [83] ++ 10 :: l10nText [([107, 32], [32, 118, 32, 92])] true = [91, 83, 93, 10, 107, 32, 61, 32, 118, 32, 92, 10] := by
+  decide
+-- NEGATION WITNESS for "key does not start with [": "[a]=b" is a section, not an entity (C02)
+example : (iniGetNext #[91, 97, 93, 61, 98] 0).kind = .section := by decide
+
+end Reparse
 
 end C04
